@@ -417,6 +417,24 @@ class NameConverter(ast.NodeTransformer):
         self.code_mangled = code_mangled
         self.count = count()
 
+    def _visit_scope(self, node):
+        # Inside a nested function or lambda, a parameter called like recurse
+        # (or like the function itself) is that parameter
+        a = node.args
+        params = {arg.arg for arg in a.posonlyargs + a.args + a.kwonlyargs}
+        params.update(arg.arg for arg in (a.vararg, a.kwarg) if arg)
+        hidden = params & self.recurse_syms
+        if not hidden:
+            return self.generic_visit(node)
+        saved = self.recurse_syms
+        self.recurse_syms = saved - hidden
+        try:
+            return self.generic_visit(node)
+        finally:
+            self.recurse_syms = saved
+
+    visit_Lambda = visit_FunctionDef = visit_AsyncFunctionDef = _visit_scope
+
     def visit_Name(self, node):
         if node.id in self.recurse_syms:
             new_node = ast.Name(self.ovld_mangled, ctx=node.ctx)
